@@ -323,6 +323,9 @@ func udpMonitors(ctx *Ctx, prop string, cs *udpCaseSpec, obs []udpOpObs, shutdow
 			if (ob.Report.Status == "OK") != ob.Forwarded {
 				ctx.Monitor("C16/status-vs-outcome", fmt.Sprintf("status %s but forwarded=%v", ob.Report.Status, ob.Forwarded), rep)
 			}
+			if !ob.Forwarded && ob.Report.B != 0 {
+				ctx.Monitor("C16/payload-bytes-on-dropped-datagram", fmt.Sprintf("datagram was not forwarded (status %s) but %d proxy-to-target bytes are reported", ob.Report.Status, ob.Report.B), rep)
+			}
 			if ob.Forwarded && ob.Report.B != int64(len(ob.Payload)) {
 				ctx.Monitor("C16/payload-bytes", fmt.Sprintf("reported %d payload bytes, target received %d", ob.Report.B, len(ob.Payload)), rep)
 			}
